@@ -1,6 +1,8 @@
 """C15, second half: multi-operation programs on the real interpreter vs the Lean reference semantics."""
 from __future__ import annotations
 
+from typing import Any
+
 from vp import core, miniir, proggen
 
 
@@ -56,3 +58,416 @@ def run_programs(ctx: core.Ctx) -> None:
     ctx.extra["program_stream"] = {"generated": ctx.programs, "rejected_by_parser_or_serialiser": skipped}
     if expect:
         ctx.sample({"program": expect[0][0]["text"], "arg_types": expect[0][0]["arg_types"]})
+
+
+# =================================================================================================
+# Round-4 additions.  All three families run AFTER everything that existed before (so the random
+# stream of the older generators is unchanged) and use the same oracles as above: the Lean reference
+# semantics `sem`, or -- where MiniIR has no notion (nested symbol tables) -- a value known by
+# construction.
+#   (A) terminator-edge family: every way a cf terminator can forward block arguments (both
+#       successors the SAME block with different / permuted operands, successors of different arity,
+#       self-loops that permute their own arguments, chains), over all value types, both conditions.
+#   (B) sessions: several calls (different functions, repeated inputs) on ONE Interpreter instance;
+#       every call must still give the reference result (nothing may leak from one call to the next).
+#   (C) symbol resolution: functions whose names only differ in HOW they are spelled (nested
+#       reference @a::@b vs flat symbols "a.b", "a::b", "a_b", partially merged paths ...), each
+#       computing x + its own constant; called in every order on one interpreter, as str and as
+#       SymbolRefAttr, through func.call, and again after the callee was replaced in the module.
+# =================================================================================================
+
+EDGE_TYPES = ["i1", "i8", "i32", "i64", "index", "f32", "f64"]
+EDGE_VALS = {"i1": [(0, -1), (-1, 0)], "i8": [(11, -22), (-128, 127)], "i32": [(11, 22), (-7, 2)],
+             "i64": [(1 << 40, -5), (3, 4)], "index": [(5, 8), (-1, 0)], "f32": [(1.5, -2.0), (0.0, -0.0)],
+             "f64": [(0.1, 3.0), (-1.5, 1e10)]}
+
+
+def edge_programs() -> list[dict]:
+    ps: list[dict] = []
+
+    def add(name: str, arg_types: list[str], ret: str, body: str, vecs: list[list]) -> None:
+        sig = ", ".join(f"%p{i}: {t}" for i, t in enumerate(arg_types))
+        ps.append({"name": name, "arg_types": arg_types, "inputs": vecs,
+                   "text": f"builtin.module {{\nfunc.func @main({sig}) -> ({ret}) {{\n{body}}}\n}}\n"})
+
+    for t in EDGE_TYPES:
+        vecs = [[c, a, b] for c in (0, -1) for a, b in EDGE_VALS[t]]
+        at = ["i1", t, t]
+        add(f"same-block/{t}", at, t,
+            f"  cf.cond_br %p0, ^m(%p1 : {t}), ^m(%p2 : {t})\n^m(%r: {t}):\n  func.return %r : {t}\n", vecs)
+        add(f"same-block-swapped-pair/{t}", at, f"{t}, {t}",
+            f"  cf.cond_br %p0, ^m(%p1, %p2 : {t}, {t}), ^m(%p2, %p1 : {t}, {t})\n^m(%r: {t}, %s: {t}):\n"
+            f"  func.return %r, %s : {t}, {t}\n", vecs)
+        add(f"same-block-one-differs/{t}", at, f"{t}, {t}",
+            f"  cf.cond_br %p0, ^m(%p1, %p1 : {t}, {t}), ^m(%p1, %p2 : {t}, {t})\n^m(%r: {t}, %s: {t}):\n"
+            f"  func.return %r, %s : {t}, {t}\n", vecs)
+        add(f"different-arity/{t}", at, f"{t}, {t}",
+            f"  cf.cond_br %p0, ^a(%p2 : {t}), ^b(%p1, %p2 : {t}, {t})\n^a(%x: {t}):\n  func.return %x, %p1 : {t}, {t}\n"
+            f"^b(%y: {t}, %z: {t}):\n  func.return %z, %y : {t}, {t}\n", vecs)
+        add(f"then-args-only/{t}", at, t,
+            f"  cf.cond_br %p0, ^a(%p1 : {t}), ^b\n^a(%x: {t}):\n  func.return %x : {t}\n^b:\n  func.return %p2 : {t}\n", vecs)
+        add(f"else-args-only/{t}", at, t,
+            f"  cf.cond_br %p0, ^a, ^b(%p2 : {t})\n^a:\n  func.return %p1 : {t}\n^b(%x: {t}):\n  func.return %x : {t}\n", vecs)
+        add(f"chain-of-same-block/{t}", ["i1", "i1", t, t], f"{t}, {t}",
+            f"  cf.cond_br %p0, ^m(%p2 : {t}), ^m(%p3 : {t})\n^m(%r: {t}):\n"
+            f"  cf.cond_br %p1, ^n(%r, %p2 : {t}, {t}), ^n(%p3, %r : {t}, {t})\n^n(%u: {t}, %v: {t}):\n"
+            f"  func.return %u, %v : {t}, {t}\n",
+            [[c, d, a, b] for c in (0, -1) for d in (0, -1) for a, b in EDGE_VALS[t][:1]])
+        add(f"br-swap/{t}", [t, t], f"{t}, {t}",
+            f"  cf.br ^m(%p1, %p0 : {t}, {t})\n^m(%r: {t}, %s: {t}):\n  cf.br ^n(%s, %r, %s : {t}, {t}, {t})\n"
+            f"^n(%u: {t}, %v: {t}, %w: {t}):\n  func.return %v, %w : {t}, {t}\n", [list(ab) for ab in EDGE_VALS[t]])
+    # computed operands on both edges into the same block
+    add("abs-diff", ["i32", "i32"], "i32",
+        "  %lt = arith.cmpi slt, %p0, %p1 : i32\n  %d0 = arith.subi %p0, %p1 : i32\n  %d1 = arith.subi %p1, %p0 : i32\n"
+        "  cf.cond_br %lt, ^m(%d1 : i32), ^m(%d0 : i32)\n^m(%r: i32):\n  func.return %r : i32\n",
+        [[3, 10], [10, 3], [5, 5], [-7, 2], [2, -7]])
+    # loops whose back edges permute the header's own arguments (parallel assignment), incl. both
+    # successors of one cond_br being the header
+    loop_vecs = [[n, 11, 22] for n in (0, 1, 2, 3, 4, 7)]
+    add("self-loop-swap", ["i32", "i32", "i32"], "i32, i32",
+        "  %z = arith.constant 0 : i32\n  %o = arith.constant 1 : i32\n  %m = arith.constant 7 : i32\n"
+        "  %n = arith.andi %p0, %m : i32\n  cf.br ^h(%n, %p1, %p2 : i32, i32, i32)\n"
+        "^h(%i: i32, %x: i32, %y: i32):\n  %i1 = arith.subi %i, %o : i32\n  %go = arith.cmpi ne, %i, %z : i32\n"
+        "  cf.cond_br %go, ^h(%i1, %y, %x : i32, i32, i32), ^e(%x, %y : i32, i32)\n"
+        "^e(%u: i32, %v: i32):\n  func.return %u, %v : i32, i32\n", loop_vecs)
+    add("self-loop-both-edges", ["i32", "i32", "i32"], "i32, i32",
+        "  %z = arith.constant 0 : i32\n  %o = arith.constant 1 : i32\n  %m = arith.constant 7 : i32\n"
+        "  %n = arith.andi %p0, %m : i32\n  cf.br ^h(%n, %p1, %p2 : i32, i32, i32)\n"
+        "^h(%i: i32, %x: i32, %y: i32):\n  %done = arith.cmpi eq, %i, %z : i32\n"
+        "  cf.cond_br %done, ^e(%x, %y : i32, i32), ^b\n"
+        "^b:\n  %i1 = arith.subi %i, %o : i32\n  %bit = arith.andi %i, %o : i32\n  %odd = arith.cmpi ne, %bit, %z : i32\n"
+        "  %x1 = arith.addi %x, %i : i32\n"
+        "  cf.cond_br %odd, ^h(%i1, %y, %x1 : i32, i32, i32), ^h(%i1, %x1, %p1 : i32, i32, i32)\n"
+        "^e(%u: i32, %v: i32):\n  func.return %u, %v : i32, i32\n", loop_vecs)
+    return ps
+
+
+def _sem_compare(ctx: core.Ctx, kind: str, out: str, impl: str) -> bool:
+    """the comparison rule of `run_programs`: True iff this (impl, reference) pair is to be compared"""
+    k = out.split(" ")[0]
+    ctx.count(f"{kind}.outcome." + k)
+    if k in ("ub", "fuel") or impl in ("raise TimeoutError", "skipped"):
+        return False
+    if k == "err":
+        ctx.count(f"{kind}.unsupported_in_reference")
+        return False
+    return True
+
+
+def run_cfg_edges(ctx: core.Ctx) -> None:
+    lines: list[str] = []
+    expect: list[tuple[dict, list | None, str]] = []
+    for p in edge_programs():
+        m = proggen.parse_module(p["text"])
+        lines.append("prog " + miniir.serialize(m))
+        expect.append((p, None, "ok"))
+        for vec in p["inputs"]:
+            impl = miniir.run_real(m, "main", vec)
+            lines.append("run 200000 main " + " ".join(miniir.arg_text(t, v) for t, v in zip(p["arg_types"], vec)))
+            expect.append((p, vec, impl))
+            ctx.ev()
+        ctx.programs += 1
+        ctx.count("edges.programs")
+    outs = ctx.model("sem", lines)
+    for (p, vec, impl), out in zip(expect, outs):
+        if vec is None:
+            if out != "ok":
+                raise core.InfraError("MiniIR serialisation rejected by the Lean parser: " + p["text"][:400])
+            continue
+        if not _sem_compare(ctx, "edges", out, impl):
+            continue
+        ctx.disagreements_checked += 1
+        ctx.nt(("edge", p["name"], tuple(map(repr, vec))))
+        if impl != out:
+            ctx.fail("xdsl.interpreter.Interpreter.call_op", "program result differs from the MLIR reference semantics",
+                     {"program": p["text"], "args": [repr(v) for v in vec], "arg_types": p["arg_types"], "family": "edge:" + p["name"]},
+                     "block arguments forwarded by a cf terminator: interpreting @main gave a different result than the Lean reference semantics",
+                     impl, out)
+
+
+def _helper_names(text: str) -> list[str]:
+    import re
+    return re.findall(r"func\.func @(helper\d+)\(", text)
+
+
+def run_sessions(ctx: core.Ctx) -> None:
+    cfg = proggen.Config()
+    cfg.cmpi_preds = ["eq", "ne", "slt", "sle", "sgt", "sge"]
+    cfg.cf_extras = True
+    cfg.cf_extras_select = False     # the interpreter has no arith.select
+    cfg.max_stmts = 6
+    g = proggen.ProgGen(ctx.rng, cfg)
+    want = 30 if ctx.tier == "quick" else 300
+    lines: list[str] = []
+    sessions: list[tuple[dict, list[tuple[str, list[str], list]], list[str]]] = []
+    tries = 0
+    # the first 30 sessions cost about a second and are not subject to the budget: what the check covers
+    # must not depend on how loaded the machine is
+    while len(sessions) < want and tries < 6 * want and (len(sessions) < 30 or ctx.time_left() > 20):
+        tries += 1
+        p = g.program()
+        try:
+            m = proggen.parse_module(p["text"])
+            sexp = miniir.serialize(m)
+        except Exception as e:  # noqa: BLE001
+            ctx.count("sessions.generator_rejected." + core.exc_name(e))
+            continue
+        vs = g.inputs(p["arg_types"], 2)
+        calls: list[tuple[str, list[str], list]] = [("main", p["arg_types"], vs[0])]
+        for h in _helper_names(p["text"]):
+            for hv in g.inputs(["i32", "i32"], 2):
+                calls.append((h, ["i32", "i32"], hv))
+        calls += [("main", p["arg_types"], vs[1]), ("main", p["arg_types"], vs[0])]
+        if len(calls) > 3:
+            calls.append(calls[1])
+        impls = miniir.run_real_session(m, [(f, a) for f, _, a in calls])
+        lines.append("prog " + sexp)
+        for f, tys, a in calls:
+            lines.append(f"run 200000 {f} " + " ".join(miniir.arg_text(t, v) for t, v in zip(tys, a)))
+            ctx.ev()
+        sessions.append((p, calls, impls))
+        ctx.programs += 1
+    outs = iter(ctx.model("sem", lines))
+    for p, calls, impls in sessions:
+        if next(outs) != "ok":
+            raise core.InfraError("MiniIR serialisation rejected by the Lean parser: " + p["text"][:400])
+        refs = [next(outs) for _ in calls]
+        for k, (impl, out) in enumerate(zip(impls, refs)):
+            if not _sem_compare(ctx, "sessions", out, impl):
+                continue
+            ctx.disagreements_checked += 1
+            ctx.nt(("session", p["text"], k))
+            if impl != out:
+                # shrink: does the call fail on a fresh interpreter as well?
+                f, tys, a = calls[k]
+                alone = miniir.run_real_session(proggen.parse_module(p["text"]), [(f, a)])[0]
+                keep = calls[k:k + 1] if alone != out else calls[:k + 1]
+                ctx.fail("xdsl.interpreter.Interpreter.call_op",
+                         "program result differs from the MLIR reference semantics" if alone != out
+                         else "result of a call depends on earlier calls on the same Interpreter",
+                         {"program": p["text"], "session": [[f2, t2, [repr(v) for v in a2]] for f2, t2, a2 in keep]},
+                         f"call #{len(keep) - 1} of the session (all calls on one Interpreter) gave a different result / effect log "
+                         "than the Lean reference semantics", impl, out)
+                break
+    ctx.count("sessions.run", len(sessions))
+
+
+# ---------------------------------------------------------------------------------------- (C) symbols
+SYM_SEPS = [".", "::", "_", "/", "$", ""]
+
+
+def symbol_family(rng) -> list[tuple[str, ...]]:
+    """paths (tuple = nesting through builtin.module symbol tables, last = func name); every path is
+    unique, but many coincide once a path is flattened to one string with some separator"""
+    words = rng.sample(["lib", "inc", "sub", "a", "b", "f", "main", "x0"], 3)
+    r, s, l = words
+    nested = [(r, l), (r, s, l), (s, l), (r, r), (r, s, r)]
+    paths: list[tuple[str, ...]] = [(l,), (r + l,)]
+    for p in nested:
+        paths.append(p)
+        for sep in SYM_SEPS:
+            paths.append((sep.join(p),))
+            if len(p) == 3:
+                paths.append((sep.join(p[:2]), p[2]))
+                paths.append((p[0], sep.join(p[1:])))
+    out: list[tuple[str, ...]] = []
+    for p in paths:
+        # a name is either a function or a nested module in its symbol table, never both
+        if p not in out and not any(q[:len(p)] == p or p[:len(q)] == q for q in out):
+            out.append(p)
+    return out
+
+
+def symbol_module_text(paths: list[tuple[str, ...]], consts: list[int]) -> str:
+    def q(n: str) -> str:
+        return '@"' + n + '"'
+
+    def table(prefix: tuple[str, ...], ind: str) -> str:
+        s = ""
+        subs: list[str] = []
+        for p, k in zip(paths, consts):
+            if p[:len(prefix)] != prefix:
+                continue
+            rest = p[len(prefix):]
+            if len(rest) == 1:
+                s += (f"{ind}func.func {q(rest[0])}(%x: i32) -> i32 {{\n{ind}  %k = arith.constant {k} : i32\n"
+                      f"{ind}  %r = arith.addi %x, %k : i32\n{ind}  func.return %r : i32\n{ind}}}\n")
+                if not prefix:
+                    s += (f"{ind}func.func {q('call ' + rest[0])}(%x: i32) -> i32 {{\n"
+                          f"{ind}  %r = func.call {q(rest[0])}(%x) : (i32) -> i32\n{ind}  func.return %r : i32\n{ind}}}\n")
+            elif rest[0] not in subs:
+                subs.append(rest[0])
+        for name in subs:
+            s += f"{ind}builtin.module {q(name)} {{\n" + table(prefix + (name,), ind + "  ") + f"{ind}}}\n"
+        return s
+
+    return "builtin.module {\n" + table((), "  ") + "}\n"
+
+
+def _sym_ref(path: list[str] | tuple[str, ...], how: str) -> Any:
+    from xdsl.dialects.builtin import SymbolRefAttr
+    if how == "str":
+        return path[0]
+    if how == "call":
+        return "call " + path[0]
+    return SymbolRefAttr(path[0], tuple(path[1:]))
+
+
+def _replace_callee(module, path, new_const: int) -> None:
+    """what a rewriting pass does: the func.func named by `path` is erased and a new one with the
+    same name (adding `new_const`) is inserted in its place"""
+    from xdsl.dialects import arith, builtin, func
+    from xdsl.traits import SymbolTable
+    from xdsl.dialects.builtin import SymbolRefAttr
+
+    old = SymbolTable.lookup_symbol(module, SymbolRefAttr(path[0], tuple(path[1:])))
+    assert isinstance(old, func.FuncOp)
+    new = old.clone()
+    for o in new.body.block.ops:
+        if isinstance(o, arith.ConstantOp):
+            o.properties["value"] = builtin.IntegerAttr(new_const, builtin.i32)
+    blk = old.parent_block()
+    blk.insert_op_before(new, old)
+    blk.erase_op(old)
+
+
+def run_symbol_session(text: str, steps: list[list], parsed: Any = None) -> list[str]:
+    """steps: ["call", path, how, x] | ["replace", path, new_const]; one Interpreter for all of them
+    (`parsed`: the already parsed module of `text`, usable when no step edits it)"""
+    m = parsed if parsed is not None and not any(st[0] == "replace" for st in steps) else proggen.parse_module(text)
+    it = miniir.make_interpreter(m, [], [])
+    out = []
+    for st in steps:
+        if st[0] == "replace":
+            _replace_callee(m, st[1], st[2])
+            m.verify()
+            out.append("replaced")
+            continue
+        try:
+            res = it.call_op(_sym_ref(st[1], st[2]), (st[3],))
+            out.append("ok [" + ",".join(miniir.show_val("i32", v) for v in res) + "]")
+        except Exception as e:  # noqa: BLE001
+            out.append("raise " + core.exc_name(e))
+            break
+    return out
+
+
+def symbol_expected(paths: list[tuple[str, ...]], consts: list[int], steps: list[list]) -> list[str]:
+    cur = {tuple(p): k for p, k in zip(paths, consts)}
+    out = []
+    for st in steps:
+        if st[0] == "replace":
+            cur[tuple(st[1])] = st[2]
+            out.append("replaced")
+        else:
+            v = (st[3] + cur[tuple(st[1])] + (1 << 31)) % (1 << 32) - (1 << 31)
+            out.append(f"ok [i32:{v}]")
+    return out
+
+
+def run_symbols(ctx: core.Ctx) -> None:
+    nfam = 2 if ctx.tier == "quick" else 12
+    for fam in range(nfam):
+        if fam >= 2 and ctx.time_left() < 20:     # two families (a few seconds) always run
+            break
+        paths = symbol_family(ctx.rng)
+        consts = [1000 * (i + 1) + 7 for i in range(len(paths))]
+        text = symbol_module_text(paths, consts)
+        try:
+            parsed = proggen.parse_module(text)
+        except Exception as e:  # noqa: BLE001
+            raise core.InfraError("symbol family module rejected: " + core.exc_name(e) + " " + text[:300])
+        ctx.programs += 1
+        entries: list[tuple[tuple[str, ...], str]] = []
+        for p in paths:
+            entries += [(p, "ref")] + ([(p, "str"), (p, "call")] if len(p) == 1 else [])
+        ctx.count("symbols.entries", len(entries))
+        sessions: list[list[list]] = [[["call", list(p), how, 5]] for p, how in entries]           # each alone
+        by_flat: dict[str, list] = {}
+        for e in entries:
+            for sep in SYM_SEPS:
+                by_flat.setdefault(sep.join(e[0]), []).append(e)
+        pairs = [(a, b) for grp in by_flat.values() for a in grp for b in grp if a[0] != b[0]]      # colliding spellings
+        pairs += [tuple(ctx.rng.sample(entries, 2)) for _ in range(60)]                             # and arbitrary ones
+        seen = set()
+        for a, b in pairs:
+            if (a, b) in seen:
+                continue
+            seen.add((a, b))
+            sessions.append([["call", list(a[0]), a[1], 5], ["call", list(b[0]), b[1], -3], ["call", list(a[0]), a[1], 2147483647]])
+        for p, how in ctx.rng.sample(entries, min(12, len(entries))):                              # callee replaced between calls
+            sessions.append([["call", list(p), how, 1], ["replace", list(p), 424242], ["call", list(p), how, 1]])
+        full_text, reported = text, set()
+        for steps in sessions:
+            sig = ("a call runs a function that is no longer in the module" if any(s[0] == "replace" for s in steps)
+                   else "a call runs a function other than the one its symbol names")
+            if sig in reported:
+                continue
+            text = full_text
+            got = run_symbol_session(text, steps, parsed)
+            exp = symbol_expected(paths, consts, steps)
+            ctx.ev()
+            ctx.nt(("symbols", full_text, json_key(steps)))
+            if got != exp:
+                # shrink: the module with only the functions the session names
+                used = [p for p in paths if any(list(p) == st[1] for st in steps)]
+                for keep in (used, [p for p in paths if p in used or len(p) == 1], None):
+                    if keep is None:
+                        break
+                    c2 = [consts[paths.index(p)] for p in keep]
+                    t2 = symbol_module_text(keep, c2)
+                    g2, e2 = run_symbol_session(t2, steps), symbol_expected(keep, c2, steps)
+                    if g2 != e2:
+                        text, got, exp = t2, g2, e2
+                        break
+                k = next((i for i, (x, y) in enumerate(zip(got, exp)) if x != y), min(len(got), len(exp)))
+                ctx.fail("xdsl.interpreter.Interpreter.call_op",
+                         sig,
+                         {"program": text, "symbol_session": steps, "expected": exp},
+                         f"step #{k} on one Interpreter: every function @p computes x + its own constant; the symbol must resolve through "
+                         "the nested symbol tables exactly as written (MLIR symbol resolution)", got, exp)
+                reported.add(sig)
+        ctx.count("symbols.sessions", len(sessions))
+
+
+def json_key(o: Any) -> str:
+    import json
+    return json.dumps(o, sort_keys=True)
+
+
+def run_round4(ctx: core.Ctx) -> None:
+    run_cfg_edges(ctx)
+    run_symbols(ctx)
+    run_sessions(ctx)
+
+
+def replay_case(ctx: core.Ctx, body: dict) -> int | None:
+    """replay of the program-level case kinds; None if `body` is not one of them"""
+    case = body["case"]
+    if "symbol_session" in case:
+        got = run_symbol_session(case["program"], case["symbol_session"])
+        print(case["program"])
+        print("steps:", case["symbol_session"])
+        print("implementation:", got)
+        print("expected      :", case["expected"])
+        return 0 if got == case["expected"] else 1
+
+    def val(t: str, r: str) -> Any:
+        return float(r) if t in ("f32", "f64") else int(r)
+
+    if "session" in case or ("program" in case and "args" in case):
+        calls = case.get("session") or [["main", case["arg_types"], case["args"]]]
+        m = proggen.parse_module(case["program"])
+        cs = [(f, [val(t, r) for t, r in zip(tys, a)]) for f, tys, a in calls]
+        impls = miniir.run_real_session(m, cs)
+        lines = ["prog " + miniir.serialize(m)] + [
+            f"run 200000 {f} " + " ".join(miniir.arg_text(t, v) for t, v in zip(tys, vs)) for (f, vs), (_, tys, _) in zip(cs, calls)]
+        refs = ctx.model("sem", lines)[1:]
+        print(case["program"])
+        rc = 0
+        for (f, vs), i, r in zip(cs, impls, refs):
+            bad = i != r and r.split(" ")[0] not in ("ub", "fuel", "err") and i not in ("raise TimeoutError", "skipped")
+            print(f"@{f}{tuple(vs)}: implementation: {i}; MLIR reference semantics: {r}" + ("   <-- differs" if bad else ""))
+            rc |= bad
+        return int(rc)
+    return None
